@@ -8,7 +8,14 @@ from checklib import claims as C
 checks = []
 for pid in sorted(P.PROPS):
     if pid not in C.CLAIMS: continue
-    c = C.CLAIMS[pid]
+    c = dict(C.CLAIMS[pid])
+    # the number of theorems is taken from the last evidence file (measured, not typed)
+    try:
+        ev = json.load(open('/verif/evidence/%s.json' % pid)); n = ev['coverage']['discharged']
+        import re as _re
+        c['text'] = _re.sub(r'^\d+ machine-checked theorems', '%d machine-checked theorems' % n, c['text'])
+    except Exception:
+        pass
     checks.append({
         'property_id': pid,
         'quick_cmd': './check %s --tier quick' % pid,
